@@ -154,7 +154,7 @@ def run_file(sc):
         fi.fasta_fileandle.close()
     if opts.get("disk"):
         # the cache files as auto_load writes them (judged by C06 / C04)
-        fi = FastaIndex(path, 7)
+        fi = FastaIndex(path, opts.get("disk_buffer", 7))
         for f in (fi.fai_file, fi.agp_file):
             f.unlink(missing_ok=True)
         out = C.guarded(lambda _: fi.auto_load(), None, 10.0)
@@ -416,6 +416,12 @@ def engine(run, tier, pid, opts, mc_which, sample=None, extra_kinds=()):
         tid = len(traces) + 1
     if "reject" in extra_kinds:
         traces += reject_traces(tid, run.sub("fa"))
+        tid = len(traces) + 1
+    if "cli" in extra_kinds:
+        from harness import cli_engine
+        jobs = [{"root": str(run.sub("cli")), "cfg": c, "buf": b, "tid": tid + k} for k, (c, b) in
+                enumerate([(c, b) for c in ("single", "multi", "twohap") for b in (16, 64, 250000)])]
+        traces += [r["file"] for r in C.pmap("harness.cli_engine", "cli_fasta_case", jobs, chunk=1)]
     jr = C.judge("FastaTrace", traces, run.dir, consts=FILE_CONSTS["quick"][1], shard=max(50, len(traces) // 16 + 1), spec="TraceSpec", heap="3g")
     return mcs, traces, jr
 
